@@ -4,7 +4,8 @@
 
      Activate(const, ipni)   (the same two objects are activated again)
      ICall(id, n, D)  TRet(n, sig)  TCall(id, n)  IRet(n, sig)  IErr(kind)  TEnd(kind)  Release(kind)
-     Frame(dir, t, pni, mi, did, nad, len, sig, size, fate, heard, post)
+     Frame(dir, t, pni, mi, did, nad, len, sig, size, fate, heard, post)     fate: deliver | lose | corrupt | t0..t3
+                                                                              (truncated to 0..3 octets)
 
    The spec predicts every frame from the payloads and the fates, so each Frame event
    must equal the spec's `slot` (type, PNI, MI, DID/NAD flags, payload slice by length and
@@ -32,7 +33,7 @@ Sig(d, id, off, len) ==
     FoldLeft(LAMBDA acc, k : (acc * 31 + Byte(d, id, off + k - 1) + 1) % 65521, len % 65521, [k \in 1..len |-> k])
 Src(fr) == IF fr.dir = "IT" THEN "I" ELSE "T"
 
-CfOf(k) == [lrI |-> k.lrI, lrT |-> k.lrT, did |-> k.did, tdid |-> k.tdid, did0 |-> k.did0, nad |-> k.nad,
+CfOf(k) == [lrI |-> k.lrI, lrT |-> k.lrT, did |-> k.did, tdid |-> k.tdid, did0 |-> k.did0, nad |-> k.nad, sb |-> k.sb,
             miuI |-> k.miuI, miuT |-> k.miuT, R |-> k.R]
 
 TInit ==
@@ -59,7 +60,7 @@ Matches(fr, e) ==
     /\ e.size = Size(fr)
     /\ e.sig = (IF fr.len = 0 THEN 0 ELSE Sig(Src(fr), fr.id, fr.off, fr.len))
 \* a frame nobody heard (the peer's thread is gone) has the effect of a lost one
-Eff(e) == IF e.fate = "deliver" /\ ~e.heard THEN "lose" ELSE e.fate
+Eff(e) == IF ~e.heard /\ e.fate \notin {"lose", "corrupt"} THEN "lose" ELSE e.fate
 
 Stutter == UNCHANGED vars
 
@@ -74,7 +75,7 @@ GRelease == IsEv("Release") /\ Release(Ev.kind)
 GActivate == IsEv("Activate") /\ \E v \in Vs : Reactivate(CfOf(Ev.const), v) /\ i'.pni = Ev.ipni
 GTEnd    == IsEv("TEnd") /\ Stutter
             /\ CASE Ev.kind = "none" -> t.st = "none"
-                 [] Ev.kind = "Protocol" -> t.st = "err"
+                 [] Ev.kind \in {"Protocol", "Transmission"} -> t.st = "err" /\ t.err = Ev.kind
                  [] Ev.kind \in {"BrokenLink", "Timeout"} -> i.st \in {"err", "end", "idle"} /\ t.st \in {"wait", "none"}
                  [] Ev.kind = "NotActivated" -> i.st \in {"err", "end", "idle"} /\ t.ph = "first" /\ t.st \in {"wait", "none"}
                  [] OTHER -> FALSE
